@@ -607,3 +607,40 @@ MUTANTS += [
  dict(id="C02-ws-limit-from-peer-count", props=["C02"], expect={"C02": r"clamp#ws"},
       edits=[(WST, "        let max_num_peers_to_take = offers.len().min(config.protocol.max_offers);", "        let max_num_peers_to_take = offers.len().max(config.protocol.max_offers).min(self.peers.len());")]),
 ]
+
+MUTANTS += [
+ dict(id="C09-expectation-under-sender-id", props=["C09"], expect={"C09": r"offers#(expectation|same_tuple)"},
+      edits=[(WST, "                    ExpectingAnswer {\n                        from_peer_id: offer_receiver_peer_id,\n                        regarding_offer_id: offer.offer_id,\n                    },", "                    ExpectingAnswer {\n                        from_peer_id: sender_peer_id,\n                        regarding_offer_id: offer.offer_id,\n                    },")]),
+ dict(id="C09-forward-answer-when-not-expected", props=["C09"], expect={"C09": r"answers#"},
+      edits=[(WST, "            if answer_receiver\n                .expecting_answers\n                .swap_remove(&expecting_answer)\n                .is_some()\n            {", "            if answer_receiver\n                .expecting_answers\n                .swap_remove(&expecting_answer)\n                .is_some() || answer_receiver.seeder\n            {")]),
+ dict(id="C09-answer-lookup-not-consumed", props=["C09"], expect={"C09": r"answers#"},
+      edits=[(WST, "                .expecting_answers\n                .swap_remove(&expecting_answer)\n                .is_some()", "                .expecting_answers\n                .get(&expecting_answer)\n                .is_some()")]),
+ dict(id="C09-offers-for-stopped", props=["C09"], expect={"C09": r"gating#not_stopped"},
+      edits=[(WST, "        if peer_status != PeerStatus::Stopped {\n            if let Some(offers) = request.offers {", "        if peer_status != PeerStatus::Stopped || request.numwant == Some(1) {\n            if let Some(offers) = request.offers {")]),
+ dict(id="C09-meta-consumer-from-sender", props=["C09"], expect={"C09": r"offers#(addressing|same_tuple)"},
+      edits=[(WST, "                let meta = OutMessageMeta {\n                    out_message_consumer_id: offer_receiver_consumer_id,\n                    connection_id: offer_receiver_connection_id,", "                let meta = OutMessageMeta {\n                    out_message_consumer_id: peer.consumer_id,\n                    connection_id: offer_receiver_connection_id,")]),
+ dict(id="C09-offer-tagged-with-receiver-id", props=["C09"], expect={"C09": r"offers#message"},
+      edits=[(WST, "                    info_hash,\n                    peer_id: sender_peer_id,\n                    offer: offer.offer,", "                    info_hash,\n                    peer_id: offer_receiver_peer_id,\n                    offer: offer.offer,")]),
+ dict(id="C09-receivers-reversed", props=["C09"], expect={"C09": r"pairing#(zip|no_reorder)"},
+      edits=[(WST, "            ) in offers.into_iter().zip(offer_receivers)\n", "            ) in offers.into_iter().rev().zip(offer_receivers)\n")]),
+ dict(id="C09-push-before-recording", props=["C09"], expect={"C09": r"offers#same_tuple"},
+      edits=[(WST, """                peer.expecting_answers.insert(
+                    ExpectingAnswer {
+                        from_peer_id: offer_receiver_peer_id,
+                        regarding_offer_id: offer.offer_id,
+                    },
+                    valid_until,
+                );
+""", """                if config.protocol.max_offers > 1 {
+                peer.expecting_answers.insert(
+                    ExpectingAnswer {
+                        from_peer_id: offer_receiver_peer_id,
+                        regarding_offer_id: offer.offer_id,
+                    },
+                    valid_until,
+                );
+                }
+""")]),
+ dict(id="C09-answer-meta-swapped-with-sender", props=["C09"], expect={"C09": r"answers#"},
+      edits=[(WST, "                let meta = OutMessageMeta {\n                    out_message_consumer_id: answer_receiver.consumer_id,\n                    connection_id: answer_receiver.connection_id,", "                let meta = OutMessageMeta {\n                    out_message_consumer_id: request_sender_meta.out_message_consumer_id,\n                    connection_id: answer_receiver.connection_id,")]),
+]
